@@ -20,8 +20,13 @@ PROFILES = {
     'lan': (0.002, 0.002),
     'radio': (0.002, 0.020),
     'slow': (0.050, 0.150),
+    # HCI transports are byte streams: packets that arrive close together are handed to the receiver in ONE read, i.e. processed
+    # back to back in one event-loop callback, before any task they wake up gets to run (PacketParser.feed_data loops over the chunk)
+    'burst': (0.002, 0.002),
+    'burst-radio': (0.002, 0.020),
 }
-PROFILE_NAMES = ['zero', 'lan', 'radio', 'slow', 'skewed']
+BURST_WINDOW = {'burst': 0.003, 'burst-radio': 0.010}  # seconds during which HCI packets are coalesced into one delivery
+PROFILE_NAMES = ['zero', 'lan', 'radio', 'slow', 'skewed', 'burst', 'burst-radio']
 
 
 class Trace:
@@ -263,6 +268,9 @@ class SimChannel:
         self.on_delivered: Callable | None = None  # fn(item) after delivery (fault triggers)
         self.closed = False
         self.delivered = 0
+        self.burst = BURST_WINDOW.get(sim.profile, 0.0) if kind == 'hci' else 0.0
+        self._batch: list | None = None
+        self._batch_time = 0.0
 
     def send(self, item) -> None:
         if self.closed:
@@ -284,12 +292,31 @@ class SimChannel:
         now = sim.loop.time()
         d = sim.delay(self.name, self.kind, n, self.node)
         t = max(self.last, now + d)
+        if self.burst:
+            # coalesce: everything that would arrive before the open batch is flushed joins it; order is preserved
+            self.inflight += 1
+            if self._batch is not None and t <= self._batch_time:
+                self._batch.append(item)
+                return
+            self._batch = [item]
+            self._batch_time = t + self.burst
+            self.last = self._batch_time
+            sim.loop.sim_at(self._batch_time, self._flush, self._batch)
+            return
         self.last = t
         if self.inline_when_zero and t <= now and self.inflight == 0:
             self._deliver(item, False)
         else:
             self.inflight += 1
             sim.loop.sim_at(t, self._deliver, item, True)
+
+    def _flush(self, batch: list) -> None:
+        if batch is self._batch:
+            self._batch = None
+        if len(batch) > 1:
+            self.sim.probes['hci_packets_delivered_in_one_burst'] += len(batch)
+        for item in batch:
+            self._deliver(item, True)
 
     def _deliver(self, item, queued: bool) -> None:
         if queued:
